@@ -213,3 +213,20 @@ def inline_local_call(W, bv, t, depth=3):
         t = subst_params(cv.trace_local(0), list(x[2]))
         bv = cv
     return t
+
+
+def equal_edges(bv, pred, holds=True):
+    """Edges [(block, target)] of boolean switches in `bv` on which an equality `a == b` satisfying pred(term)
+    HOLDS (or, with holds=False, fails), whichever way it is spelt: `a == b` taken on true, `a != b` taken on
+    false (negations are already folded by bool_edges)."""
+    out = []
+    for (a, b, tr) in bv.bool_edges(lambda t: t[0] == "call" and t[1] in ("std::cmp::PartialEq::eq", "std::cmp::PartialEq::ne") and pred(t)):
+        term = bv.trace_op(bv.blocks[a]["t"]["o"])
+        while term[0] == "unop" and term[1] == "Not":
+            term = term[2]
+        heads = set(x[1] for x in alts(term) if x[0] == "call")
+        if heads == {"std::cmp::PartialEq::eq"} and tr == holds:
+            out.append((a, b))
+        elif heads == {"std::cmp::PartialEq::ne"} and tr != holds:
+            out.append((a, b))
+    return out
